@@ -226,14 +226,22 @@ Date::Date(Zone z, int y, int m, int d, int h, int mn, int s)
 #define isLeapYear(t)   (daysInYear(yearFromTime(t)) == 366)
 #define dayWithinYear(t, year) (floor((t)/secsInDay) - timeFromYearAsDays(year))
 
+static const double maxTime = 1.8e14; // about 5.7 million years either side of 1970: day numbers fit an int
+
 static int yearFromTime(double t)
 {
 	static const int d4y = 365 * 4 + 1;     // 4 year block with 1 leap
 	static const int d100y = d4y * 25 - 1;  // 100 year block (except multiples of 400)
 	static const int d400y = 4 * d100y + 1; // 400 year block (one more leap for the first year in the block)
 
-	int d = (int)floor(t * (1 / 86400.0)) + d400y * 4 + d100y + 1 + d100y * 2 + d4y - 1 + 16 * d4y + 2 * 365 + 1;
+	int d = (int)floor(t / 86400.0) + d400y * 4 + d100y + 1 + d100y * 2 + d4y - 1 + 16 * d4y + 2 * 365 + 1;
 	//(1970 = 4 * 400 + 3 * 100 + 17 * 4 + 2)
+	int shift = 0;
+	if (d < 0) // before year 0: the calendar repeats every 400 years, count from a block that starts at or before d
+	{
+		shift = (d400y - 1 - d) / d400y;
+		d += shift * d400y;
+	}
 	if (d > 695421 && d < 766645) // 1904 - 2099 : all d4y blocks
 	{
 		d -= 695421;
@@ -280,7 +288,7 @@ static int yearFromTime(double t)
 		year += (d < 366 + 2 * 365) ? 2 : 3;
 	else if (d >= 366)
 		year += 1;
-	return year;
+	return year - 400 * shift;
 }
 
 
@@ -323,7 +331,7 @@ inline double round(double x)
 DateData Date::calc(double t)
 {
 	DateData date;
-	if (t != t)
+	if (!(fabs(t) < maxTime)) // invalid, or so far away that the day number does not fit an int
 	{
 		memset(&date, 0, sizeof(date));
 		return date;
@@ -360,7 +368,7 @@ DateData Date::calc(double t)
 
 String Date::toString(Date::Format fmt, bool utc) const
 {
-	if (_t != _t)
+	if (!(fabs(_t) < maxTime))
 		return "?";
 	DateData d = calc(_t + (utc ? 0 : localOffset()));
 	String   s;
